@@ -480,3 +480,172 @@ Proof.
     apply s_print.
 Qed.
 End refine.
+
+(* ------------------------------------------------------------------ executions *)
+Lemma sax_steps_app F str C l1 C' l2 C'' :
+  sax_steps F str C l1 C' -> sax_steps F str C' l2 C'' -> sax_steps F str C (l1 ++ l2) C''.
+Proof.
+  induction 1 as [C C' Hperm|C ls C1 ls' C2 Hstep _ IH]; intros H2.
+  - cbn. destruct H2 as [C2 C3 Hperm2|C2 ls C3 ls' C4 (L & R & Δ & HC & HC' & Hr) Hrest].
+    + apply sax_refl. by rewrite Hperm.
+    + eapply sax_trans; [|exact Hrest]. exists L, R, Δ. split_and!; try done. by rewrite Hperm.
+  - rewrite <- app_assoc. eapply sax_trans; [exact Hstep|]. by apply IH.
+Qed.
+
+Lemma async_step_run D F c ch c' : step Async D F c ch = SStep c' -> exists self, ch = Run self.
+Proof. destruct ch as [self|s r|f t]; [eauto|done|done]. Qed.
+
+(* a run along which the local invariant holds at every configuration a step is taken from *)
+Inductive inv_steps (D : tenv) (F : list fundef) : config -> config -> Prop :=
+| inv_steps_nil c : inv_steps D F c c
+| inv_steps_cons c ch c' c'' :
+    Inv D c -> step Async D F c ch = SStep c' -> inv_steps D F c' c'' -> inv_steps D F c c''.
+
+Theorem refines_sax_run D F c c' : inv_steps D F c c' ->
+  exists ls, sax_steps F false (α c) ls (α c') /\ labels c' = labels c ++ ls.
+Proof.
+  induction 1 as [c|c ch c' c'' HI Hstep _ (ls2 & Hs2 & Hl2)].
+  - exists []. split; [by apply sax_refl|by rewrite app_nil_r].
+  - destruct (async_step_run D F c ch c' Hstep) as [self ->].
+    destruct (refines_sax D F c self c' HI Hstep) as (ls1 & Hs1 & Hl1).
+    exists (ls1 ++ ls2). split; [by eapply sax_steps_app|]. by rewrite Hl2, Hl1, app_assoc.
+Qed.
+
+(* ---- with preservation of Inv as a hypothesis (it follows from Typed + Topo, C01) ---- *)
+Section with_preservation.
+Context (D : tenv) (F : list fundef).
+Context (Inv_preserved : forall c ch c', Inv D c -> step Async D F c ch = SStep c' -> Inv D c').
+
+Lemma steps_inv_steps c tr c' : Inv D c -> steps Async D F c tr c' -> inv_steps D F c c'.
+Proof.
+  intros HI Hs. induction Hs as [c|c ch c' tr c'' Hstep _ IH]; [constructor|].
+  econstructor; [done|done|]. apply IH. by eapply Inv_preserved.
+Qed.
+
+(* every label sequence printed by a run of the model from p's initial configuration is printed by
+   an execution of the reference semantics from the abstraction of that configuration *)
+Theorem prints_admitted_partial (p : program) fuel pick :
+  Inv D (init_config p) ->
+  exists C', sax_steps F false (α (init_config p))
+               (labels (res_config (exec_run fuel pick Async D F (init_config p)))) C'.
+Proof.
+  intros HI. rewrite <- (exec_trace_exec_run Async D F fuel pick (init_config p) []).
+  destruct (exec_trace fuel pick Async D F (init_config p) []) as [r tr] eqn:Htr. cbn [fst].
+  apply exec_trace_run in Htr as (es & _ & Hrun).
+  destruct (refines_sax_run D F _ _ (steps_inv_steps _ _ _ HI Hrun)) as (ls & Hs & Hl).
+  exists (α (res_config r)). by rewrite Hl.
+Qed.
+End with_preservation.
+
+(* ------------------------------------------------------------------ a checker for Inv *)
+Definition is_some {A} (o : option A) : bool := match o with Some _ => true | None => false end.
+Definition head_lin_b (b : form) : bool :=
+  match b with FDrop _ _ | FSplit _ _ _ _ | FFwd _ _ true => false | _ => true end.
+Definition msg_ok_b (m : msg) : bool :=
+  match m_rule m with
+  | RRCV => is_some (chan (m_c2 m))
+  | RBRA | RSHF => is_some (chan (m_c1 m))
+  | RFWD => match m_provs m with [n] => is_some (chan n) | _ => false end
+  | RGC => false
+  | _ => true
+  end.
+Definition cut_fresh_b (c : config) (self : pid) (p : proc) : bool :=
+  negb (existsb (cid_eqb (self ++ [pr_next p])) (cfg_cids (α c))) &&
+  negb (is_some (chans c !! (self ++ [pr_next p]))) &&
+  negb (is_some (procs c !! (self ++ [S (pr_next p) + 1]%nat))).
+Definition step_ok_b (D : tenv) (c : config) (self : pid) (p : proc) : bool :=
+  match pr_provs p with [n] => is_some (chan n) | _ => false end &&
+  head_lin_b (pr_body0 p) &&
+  match pr_body0 p with FNew _ _ _ => cut_fresh_b c self p | _ => true end &&
+  match action_of Async D p with
+  | ARecv k =>
+    match chans c !! k with
+    | Some st =>
+      match ch_buf st with
+      | Some m => msg_ok_b m &&
+                  match m_rule m with
+                  | RFWD => match self_chan p with Some k' => cid_eqb k' k | None => false end && negb (is_fwd (pr_body0 p))
+                  | _ => true
+                  end
+      | None => negb (ch_closed st)
+      end
+    | None => true
+    end
+  | _ => true
+  end.
+Definition inv_b (D : tenv) (c : config) : bool :=
+  forallb (fun x => step_ok_b D c (fst x) (snd x)) (map_to_list (procs c)).
+
+Lemma cid_eqb_eq a b : cid_eqb a b = true <-> a = b.
+Proof. unfold cid_eqb. destruct (list_eq_dec Nat.eq_dec a b); split; congruence. Qed.
+
+Lemma is_some_spec {A} (o : option A) : is_some o = true <-> is_Some o.
+Proof. destruct o; cbn; split; intros H; try done; eauto. by destruct H. Qed.
+
+Lemma step_ok_b_sound D c self p : step_ok_b D c self p = true -> step_ok D c self p.
+Proof.
+  unfold step_ok_b. intros H. apply andb_prop in H as [H H4]. apply andb_prop in H as [H H3].
+  apply andb_prop in H as [H1 H2]. split_and!.
+  - destruct (pr_provs p) as [|n [|]]; try done. apply is_some_spec in H1 as [a Ha]. eauto.
+  - destruct (pr_body0 p); try done. by destruct droppable.
+  - intros (x & b & k & Hb). rewrite Hb in H3. unfold cut_fresh_b in H3.
+    apply andb_prop in H3 as [H3 Hc]. apply andb_prop in H3 as [Ha Hb']. split_and!.
+    + intros Hin. apply negb_true_iff in Ha. apply not_true_iff_false in Ha. apply Ha.
+      apply existsb_exists. exists (self ++ [pr_next p]). split; [by apply elem_of_list_In|by apply cid_eqb_eq].
+    + apply negb_true_iff in Hb'. by destruct (chans c !! _).
+    + apply negb_true_iff in Hc. by destruct (procs c !! _).
+  - intros k st Hact Hk. rewrite Hact, Hk in H4. destruct (ch_buf st) as [m|].
+    + apply andb_prop in H4 as [Hm Hf]. split.
+      * unfold msg_ok_b in Hm. unfold msg_ok. destruct (m_rule m); try done; try by apply is_some_spec.
+        destruct (m_provs m) as [|n [|]]; try done. exists n. split; [done|by apply is_some_spec].
+      * intros Hr. rewrite Hr in Hf. apply andb_prop in Hf as [Hs Hnf].
+        destruct (self_chan p) as [k'|]; [|done]. apply cid_eqb_eq in Hs as ->. split; [done|].
+        by apply negb_true_iff in Hnf.
+    + by apply negb_true_iff in H4.
+Qed.
+
+Lemma inv_b_sound D c : inv_b D c = true -> Inv D c.
+Proof.
+  unfold inv_b. intros H self p Hp. rewrite forallb_forall in H.
+  apply step_ok_b_sound. apply (H (self, p)). by apply elem_of_list_In, elem_of_map_to_list.
+Qed.
+
+(* the run of the model, with the invariant CHECKED at every configuration a step is taken from
+   (None: the check failed somewhere) *)
+Fixpoint exec_checked (fuel : nat) (pick : nat -> nat -> nat) (D : tenv) (F : list fundef) (c : config) : option run_res :=
+  match fuel with
+  | O => Some (ROutOfFuel c)
+  | S f =>
+    match enabled Async D F c with
+    | [] => Some (RQuiescent c)
+    | e0 :: es =>
+      let n := S (length es) in
+      let ch := nth (pick fuel n mod n) (e0 :: es) e0 in
+      match step Async D F c ch with
+      | SStep c' => if inv_b D c then exec_checked f pick D F c' else None
+      | SError who w => Some (RError c who w)
+      | SNotEnabled => Some (RQuiescent c)
+      end
+    end
+  end.
+
+(* no hypothesis: whenever the checked run succeeds it is the model's run, and its labels are
+   printed by an execution of the reference semantics *)
+Theorem prints_admitted_checked fuel pick D F : forall c r,
+  exec_checked fuel pick D F c = Some r ->
+  exec_run fuel pick Async D F c = r /\
+  exists ls, sax_steps F false (α c) ls (α (res_config r)) /\ labels (res_config r) = labels c ++ ls.
+Proof.
+  induction fuel as [|f IH]; intros c r H; cbn in H.
+  - simplify_eq. split; [done|]. exists []. split; [by apply sax_refl|by rewrite app_nil_r].
+  - cbn [exec_run]. destruct (enabled Async D F c) as [|e0 es].
+    { simplify_eq. split; [done|]. exists []. split; [by apply sax_refl|by rewrite app_nil_r]. }
+    destruct (step Async D F c _) as [|c'|who w] eqn:Hstep.
+    + simplify_eq. split; [done|]. exists []. split; [by apply sax_refl|by rewrite app_nil_r].
+    + destruct (inv_b D c) eqn:HI; [|done]. apply inv_b_sound in HI.
+      destruct (IH _ _ H) as (Hrun & ls2 & Hs2 & Hl2). split; [done|].
+      destruct (async_step_run D F c _ c' Hstep) as [self Hch]. rewrite Hch in Hstep.
+      destruct (refines_sax D F c self c' HI Hstep) as (ls1 & Hs1 & Hl1).
+      exists (ls1 ++ ls2). split; [by eapply sax_steps_app|]. by rewrite Hl2, Hl1, app_assoc.
+    + simplify_eq. split; [done|]. exists []. split; [by apply sax_refl|by rewrite app_nil_r].
+Qed.
